@@ -278,29 +278,29 @@ func (s *Store) LoadCheckpoint() error {
 			return fmt.Errorf("restore checkpoints from savepoint: %v", err)
 		}
 	} else {
-		// For a new job, check the file store for first (latest) snapshot file.
-		// Checkpoint IDs are encoded so that files will be in reverse chronological
-		// order.
-		var latestCheckpointFile string
+		// For a new job, load the snapshot file with the highest checkpoint ID.
+		// The order of the listing is not relied upon: the encoded file names
+		// do not sort by checkpoint ID, and an interrupted cleanup can leave
+		// more than one snapshot file behind.
 		for filePath, err := range s.fileStore.List() {
 			if err != nil {
 				return err
 			}
-			if filepath.Ext(filePath) == ".snapshot" {
-				latestCheckpointFile = filePath
-				break
+			if filepath.Ext(filePath) != ".snapshot" {
+				continue
+			}
+			snap, err := s.SnapshotForURI(filePath)
+			if err != nil {
+				return err
+			}
+			if loadedCheckpoint == nil || snap.Id > loadedCheckpoint.Id {
+				loadedCheckpoint = snap
 			}
 		}
 
-		if latestCheckpointFile == "" {
+		if loadedCheckpoint == nil {
 			return nil // No checkpoint to load
 		}
-
-		snap, err := s.SnapshotForURI(latestCheckpointFile)
-		if err != nil {
-			return err
-		}
-		loadedCheckpoint = snap
 	}
 
 	// Set the initial checkpoint ID counter
